@@ -46,14 +46,14 @@ LoopStep ==
         THEN segs' = Append(segs, <<"ign", start, pos + 1>>) /\ hist' = <<>>
         ELSE segs' = segs /\ hist' = Append(hist, o)
 
-Next ==
-  \/ /\ ncalls < MaxCalls /\ ScanAtEOF /\ UNCHANGED <<segs, hist>>
-  \/ /\ ncalls < MaxCalls /\ ScanBegin /\ hist' = <<>> /\ UNCHANGED segs
-  \/ LoopStep
-  \/ /\ ScanEnd
-     /\ segs' = Append(segs, <<"tok", start, IF end > start THEN end ELSE start>>)
-     /\ UNCHANGED hist
-  \/ /\ Reset /\ ncalls > 0 /\ ncalls < MaxCalls /\ segs' = <<>> /\ hist' = <<>>
+AScanAtEOF == ncalls < MaxCalls /\ ScanAtEOF /\ UNCHANGED <<segs, hist>>
+ABegin     == ncalls < MaxCalls /\ ScanBegin /\ hist' = <<>> /\ UNCHANGED segs
+AEnd       == /\ ScanEnd
+              /\ segs' = Append(segs, <<"tok", start, IF end > start THEN end ELSE start>>)
+              /\ UNCHANGED hist
+AReset     == Reset /\ ncalls > 0 /\ ncalls < MaxCalls /\ segs' = <<>> /\ hist' = <<>>
+
+Next == AScanAtEOF \/ ABegin \/ LoopStep \/ AEnd \/ AReset
 
 Spec == Init /\ [][Next]_vars
 
